@@ -47,6 +47,9 @@ func gen(r *rand.Rand, idx int, tier string) Input {
 		level = 3
 	}
 	w := segu.RandWindow(r, size, level)
+	if lib.Chance(r, 0.15) {
+		return genTiled(r, w)
+	}
 	nw := lib.Range(r, 1, 6)
 	if lib.Chance(r, 0.2) {
 		nw = lib.Range(r, 7, 14)
@@ -90,6 +93,53 @@ func gen(r *rand.Rand, idx int, tier string) Input {
 	nt := lib.Range(r, 3, 7)
 	for i := 0; i < nt; i++ {
 		p := []int64{pick(), pick(), pick()}
+		sort.Slice(p, func(i, j int) bool { return p[i] < p[j] })
+		add(p[0], p[1])
+		add(p[1], p[2])
+		add(p[0], p[2])
+	}
+	return in
+}
+
+// A fully written stretch of the window made of short writes (1..9 slots, in random order, some
+// overlapping), queried on sub-ranges of the written stretch: the cover must be canonical.
+func genTiled(r *rand.Rand, w segu.Window) Input {
+	var in Input
+	size := w.Size
+	if size > 400 {
+		size = int64(lib.Range(r, 30, 400))
+	}
+	lo := w.Lo + r.Int63n(w.Size-size+1)
+	var ws []segu.Write
+	for x := lo; x < lo+size; {
+		span := int64(lib.Range(r, 1, 9))
+		if x+span > lo+size {
+			span = lo + size - x
+		}
+		ws = append(ws, segu.Write{St: segu.SlotUnix(x), Et: segu.SlotUnix(x + span), Samples: uint64(span) * uint64(lib.Range(r, 1, 20))})
+		x += span
+	}
+	for i := lib.Range(r, 0, 4); i > 0; i-- { // a few extra overlapping short writes
+		span := int64(lib.Range(r, 1, 9))
+		x := lo + r.Int63n(size-span+1)
+		ws = append(ws, segu.Write{St: segu.SlotUnix(x), Et: segu.SlotUnix(x + span), Samples: uint64(lib.Range(r, 1, 100))})
+	}
+	r.Shuffle(len(ws), func(i, j int) { ws[i], ws[j] = ws[j], ws[i] })
+	in.Writes = ws
+	add := func(a, b int64) {
+		if a < b {
+			in.Queries = append(in.Queries, segu.Query{St: segu.SlotUnix(a), Et: segu.SlotUnix(b)})
+		}
+	}
+	add(lo, lo+size)
+	for i := lib.Range(r, 4, 8); i > 0; i-- {
+		p := []int64{lo + r.Int63n(size+1), lo + r.Int63n(size+1), lo + r.Int63n(size+1)}
+		if lib.Chance(r, 0.4) {
+			p[0] -= ((p[0] % 10) + 10) % 10
+			if p[0] < lo {
+				p[0] = lo
+			}
+		}
 		sort.Slice(p, func(i, j int) bool { return p[i] < p[j] })
 		add(p[0], p[1])
 		add(p[1], p[2])
@@ -237,7 +287,8 @@ func run(in Input) lib.Result {
 		NonTrivial: (maxSpan > 10 || crossings > 0) && cuts,
 		Feat: map[string]interface{}{"writes": len(in.Writes), "max_span": maxSpan, "span_classes": spanClass,
 			"boundary_crossings": crossings, "max_cover": maxCover, "queries": len(in.Queries),
-			"nodes": nodes, "levels": levels, "present": present, "range_cuts_present": cuts},
+			"nodes": nodes, "levels": levels, "present": present, "range_cuts_present": cuts,
+			"all_spans_short": maxSpan < 10},
 		Obs: map[string]interface{}{"nodes": nodes, "levels": levels, "max_cover": maxCover},
 	}
 }
